@@ -11,6 +11,7 @@ theorem display_eq (fmt : F → String) (s : KeltnerChannel F) :
     display fmt s = "KC(" ++ toString s.period ++ ", " ++ fmt s.multiplier ++ ")" := rfl
 theorem default_eq : (default_ : Option (KeltnerChannel F)) = some (fresh 10 (Scalar.lit 2 0)) := by
   unfold default_
+  try simp only [gen_helper]
   rw [new_eq]
   simp [unwrap]
 
